@@ -47,8 +47,8 @@ theorem dict_unknown_strict {α : Type} (bv : DVar → Str → JShape → Except
 
 /-- vars `qname: str`, `type: str`, `items: list` and the derived-element key set of the code -/
 def exVars : List DVar :=
-  [⟨"qname".toList, "qname".toList, none, false, true⟩, ⟨"type".toList, "type".toList, none, false, true⟩,
-   ⟨"items".toList, "item".toList, some "items".toList, true, true⟩]
+  [⟨"qname".toList, "qname".toList, none, false, false, true⟩, ⟨"type".toList, "type".toList, none, false, false, true⟩,
+   ⟨"items".toList, "item".toList, some "items".toList, true, true, true⟩]
 def exDerived : List Str := ["qname".toList, "type".toList, "value".toList]
 
 /- non-vacuity: `zz` is unknown; `item` with a scalar is unknown as well (shape mismatch);
@@ -244,6 +244,27 @@ theorem best_strict_first (cfg : ParserConfig) (keys : List Str) (cands : List C
     {c : ClassId} (hs : bindBest cfg keys (cands.map (·.under (candidateConfig cfg))) = .ok c) :
     (workStep cfg (.best keys cands)).1 = .ok (.chose c) := by
   simp only [workStep, hs]
+
+/-- **best_lenient_binds**: with `fail_on_converter_warnings` off a nested object is bound
+whenever some candidate class declares its (known) keys and binds it under the caller's own
+lenient configuration — unconvertible values inside it no longer make the decoder raise. -/
+theorem best_lenient_binds {cfg : ParserConfig} (hc : cfg.failOnConverterWarnings = false)
+    (keys : List Str) (cands : List CandC)
+    (h : (cands.map (·.under cfg)).any (fun c =>
+      localNamesMatch (bestKeys cfg keys (cands.map (·.under cfg))) c.localNames && c.attempt.isSome) = true) :
+    ∃ c, (workStep cfg (.best keys cands)).1 = .ok (.chose c) := by
+  have hl : ∃ c, bindBest cfg keys (cands.map (·.under cfg)) = .ok c := by
+    have := foldl_bestStep_isSome (bestKeys cfg keys (cands.map (·.under cfg))) (cands.map (·.under cfg)) none
+      (by simpa using h)
+    unfold bindBest
+    cases hf : (cands.map (·.under cfg)).foldl (bestStep (bestKeys cfg keys (cands.map (·.under cfg)))) none with
+    | none => simp [hf] at this
+    | some p => exact ⟨p.1, rfl⟩
+  obtain ⟨c, hl⟩ := hl
+  simp only [workStep]
+  cases hs : bindBest cfg keys (cands.map (·.under (candidateConfig cfg))) with
+  | ok c' => exact ⟨c', rfl⟩
+  | error err => exact ⟨c, by simp [hc, hl]⟩
 
 /- non-vacuity: `{"n": "many"}` for `Base(n: int)`: the strict attempt raises, the lenient one keeps the string -/
 example : (workStep { failOnConverterWarnings := false }
